@@ -378,6 +378,18 @@ func (i *Interface) PutMany(dbName string) (put func(record.Record) error) {
 
 	// start database access
 	dbBatch, errs := db.PutMany()
+	// If the batch could not be started (eg. the storage does not support
+	// batch operations), the error is already waiting. Nobody will ever read
+	// from dbBatch then, so report the error instead of accepting records.
+	select {
+	case err := <-errs:
+		if err != nil {
+			return func(r record.Record) error {
+				return err
+			}
+		}
+	default:
+	}
 	finished := abool.New()
 	var internalErr error
 
